@@ -729,6 +729,140 @@ def normalise_keyword_calls(trees):
         ast.fix_missing_locations(tree)
 
 
+def normalise_match(trees):
+    """match subject: case V1: ... case V2 | V3: ... case _: ...   ->   if subject == V1: ... elif subject == V2 or subject == V3: ...
+    else: ...   for value / singleton / or / wildcard / bare-capture patterns (with optional guards).  Structural patterns are
+    left alone (and leave the fragment)."""
+    counter = [0]
+
+    def cond_of(pat, subj):
+        import copy
+        if isinstance(pat, ast.MatchValue):
+            return ast.Compare(left=copy.deepcopy(subj), ops=[ast.Eq()], comparators=[pat.value])
+        if isinstance(pat, ast.MatchSingleton):
+            return ast.Compare(left=copy.deepcopy(subj), ops=[ast.Is()], comparators=[ast.Constant(pat.value)])
+        if isinstance(pat, ast.MatchOr):
+            parts = [cond_of(q, subj) for q in pat.patterns]
+            if any(x is None for x in parts):
+                return None
+            return ast.BoolOp(op=ast.Or(), values=parts)
+        return None
+
+    class T(ast.NodeTransformer):
+        def visit_Match(self, node):
+            self.generic_visit(node)
+            pre = []
+            subj = node.subject
+            simple = lambda x: isinstance(x, ast.Name) or (isinstance(x, ast.Attribute) and simple(x.value))
+            if not simple(subj):
+                counter[0] += 1
+                nm = '__match_subject_%d' % counter[0]
+                pre.append(ast.Assign(targets=[ast.Name(id=nm, ctx=ast.Store())], value=subj))
+                subj = ast.Name(id=nm, ctx=ast.Load())
+            branches = []
+            for c in node.cases:
+                pat = c.pattern
+                if isinstance(pat, ast.MatchAs) and pat.pattern is None:
+                    body = list(c.body)
+                    if pat.name is not None:
+                        import copy
+                        body.insert(0, ast.Assign(targets=[ast.Name(id=pat.name, ctx=ast.Store())], value=copy.deepcopy(subj)))
+                    cond = c.guard if c.guard is not None else ast.Constant(True)
+                    branches.append((cond, body))
+                    if c.guard is None:
+                        break
+                    continue
+                cond = cond_of(pat, subj)
+                if cond is None:
+                    return node
+                if c.guard is not None:
+                    cond = ast.BoolOp(op=ast.And(), values=[cond, c.guard])
+                branches.append((cond, list(c.body)))
+            out = None
+            for cond, body in reversed(branches):
+                if isinstance(cond, ast.Constant) and cond.value is True:
+                    out = body
+                else:
+                    out = [ast.If(test=cond, body=body, orelse=out or [])]
+            res = pre + (out or [ast.Pass()])
+            for x in res:
+                ast.copy_location(x, node)
+                for y in ast.walk(x):
+                    if not hasattr(y, 'lineno'):
+                        ast.copy_location(y, node)
+            return res
+    for tree in trees.values():
+        if any(isinstance(n, ast.Match) for n in ast.walk(tree)):
+            T().visit(tree)
+            ast.fix_missing_locations(tree)
+
+
+def synthesise_dataclass_init(trees):
+    """@dataclass class K: a: int; b: int = 0; def __post_init__(self): ...   gets the __init__ the decorator would generate:
+    def __init__(self, a, b=0): self.a = a; self.b = b; <body of __post_init__>.  Fields with field(...) / InitVar / ClassVar
+    specifications are not modelled (the class then has no __init__ for the analyses: constructing it leaves the fragment)."""
+    for tree in trees.values():
+        for cls in [n for n in ast.walk(tree) if isinstance(n, ast.ClassDef)]:
+            decs = [ast.unparse(d.func if isinstance(d, ast.Call) else d) for d in cls.decorator_list]
+            if not any(d in ('dataclass', 'dataclasses.dataclass') for d in decs):
+                continue
+            if any(isinstance(m, ast.FunctionDef) and m.name == '__init__' for m in cls.body) or cls.bases:
+                continue
+            dec = next(d for d in cls.decorator_list if ast.unparse(d.func if isinstance(d, ast.Call) else d) in ('dataclass', 'dataclasses.dataclass'))
+            if isinstance(dec, ast.Call) and any(k.arg in ('init', 'kw_only', 'slots') for k in dec.keywords):
+                continue
+            fields, ok = [], True
+            for m in cls.body:
+                if isinstance(m, ast.AnnAssign) and isinstance(m.target, ast.Name):
+                    ann = ast.unparse(m.annotation)
+                    if 'ClassVar' in ann:
+                        continue
+                    if 'InitVar' in ann or (m.value is not None and isinstance(m.value, ast.Call) and ast.unparse(m.value.func).split('.')[-1] == 'field'):
+                        ok = False
+                    fields.append((m.target.id, m.value, m))
+            if not ok or not fields:
+                continue
+            args = ast.arguments(posonlyargs=[], args=[ast.arg(arg='self')] + [ast.arg(arg=f) for f, _, _ in fields], kwonlyargs=[], kw_defaults=[],
+                                 defaults=[d for _, d, _ in fields if d is not None])
+            seen_default = False
+            for _, d, _ in fields:
+                if d is not None:
+                    seen_default = True
+                elif seen_default:
+                    ok = False
+            if not ok:
+                continue
+            body = [ast.Assign(targets=[ast.Attribute(value=ast.Name(id='self', ctx=ast.Load()), attr=f, ctx=ast.Store())], value=ast.Name(id=f, ctx=ast.Load())) for f, _, _ in fields]
+            post = next((m for m in cls.body if isinstance(m, ast.FunctionDef) and m.name == '__post_init__'), None)
+            if post is not None:
+                if len(post.args.args) != 1:
+                    continue
+                import copy
+                pb = [copy.deepcopy(b) for b in post.body if not (isinstance(b, ast.Expr) and isinstance(b.value, ast.Constant))]
+                s0 = post.args.args[0].arg
+                if s0 != 'self':
+                    class R(ast.NodeTransformer):
+                        def visit_Name(self, n):
+                            if n.id == s0:
+                                n.id = 'self'
+                            return n
+                    pb = [R().visit(b) for b in pb]
+                if any(isinstance(x, ast.Return) for b in pb for x in ast.walk(b)):
+                    continue
+                body += pb
+            init = ast.FunctionDef(name='__init__', args=args, body=body, decorator_list=[], returns=None, type_params=[])
+            anchor = fields[0][2]
+            ast.copy_location(init, anchor)
+            for y in ast.walk(init):
+                if not hasattr(y, 'lineno'):
+                    ast.copy_location(y, anchor)
+            init.end_lineno = getattr(cls, 'end_lineno', anchor.lineno)
+            cls.body.insert(0, init)
+            for _, _, m in fields:
+                cls.body.remove(m)           # the annotated class-level names are not class attributes of their own
+            ast.fix_missing_locations(tree)
+
+
 def _never_none(v, fn):
     """is the expression certainly not None?  (literals, arithmetic, conversions, parameters that have no None default
     and are not re-bound)"""
@@ -853,9 +987,11 @@ class Repo:
                 self.sources[rel] = src
                 self.modname[rel] = rel[:-3].replace(os.sep, '.')
         try:
+            synthesise_dataclass_init(self.trees)
             self.unsupported_properties = normalise_properties(self.trees)
             normalise_optional_attributes(self.trees)
             normalise_keyword_calls(self.trees)
+            normalise_match(self.trees)
         except RecursionError:
             raise AnalysisError('property getters are mutually recursive')
         for rel, tree in self.trees.items():
